@@ -250,3 +250,241 @@ Proof.
     apply (find_pid_none _ _ _ Hf Hw); [rewrite (H3 w Hw); exact Em|exact E].
   - intros t i q E. rewrite Hsp in E. discriminate.
 Qed.
+
+Lemma inv_same_ints : forall s s', ints s' = ints s -> reaped s' = reaped s ->
+  (forall t i p, spawning s' = Some (t, i, p) -> spawning s = Some (t, i, p) /\ wlock s' = wlock s) -> Inv s -> Inv s'.
+Proof.
+  intros s s' E1 E2 Hsp [H1 H2 H3 H4 H5 H6]. constructor; rewrite ?E1, ?E2; auto.
+  intros t i p E. destruct (Hsp t i p E) as [E' El]. rewrite El. apply H6. exact E'.
+Qed.
+
+Lemma frame_done_list : forall w, frame_done w = true -> frame_list w = [].
+Proof. unfold frame_done, frame_list. intro w. destruct (w_frame w) as [[|]|]; try discriminate; reflexivity. Qed.
+
+Lemma frames_done_spec : forall t l w, thread_frames_done t l = true -> In w l -> w_thr w = t -> frame_done w = true.
+Proof.
+  unfold thread_frames_done. intros t l w H Hin Ht. rewrite forallb_forall in H. specialize (H w Hin).
+  rewrite Ht, Z.eqb_refl in H. exact H.
+Qed.
+
+Theorem step_inv : forall s l s', Inv s -> step s l = Some s' -> Inv s'.
+Proof.
+  intros s l s' HI H. unfold step in H. destruct l; simpl in H.
+  - (* WLock *)
+    destruct (wlock s) eqn:El; [discriminate|]. inversion H; subst; clear H.
+    apply (inv_same_ints s); auto. simpl. intros t0 i p E.
+    destruct (i_spawn s HI t0 i p E) as [A _]. rewrite El in A. discriminate.
+  - (* WUnlock *)
+    destruct (holds s t); [|discriminate]. destruct (spawning s) eqn:Es; [discriminate|]. inversion H; subst; clear H.
+    apply (inv_same_ints s); auto. simpl. intros; discriminate.
+  - (* WReg *)
+    destruct (holds s t); [|discriminate]. destruct (find id (ints s)) eqn:Ef; [discriminate|].
+    destruct (find_pid pid (ints s)) eqn:Ep; [discriminate|]. destruct (spawning s) eqn:Es; [discriminate|].
+    destruct (mem pid (reaped s)) eqn:Em; [discriminate|]. inversion H; subst; clear H.
+    unfold with_ints. rewrite Es. apply inv_add; auto. intros; discriminate.
+  - (* WFork *)
+    destruct (holds s t) eqn:Eh; [|discriminate]. destruct (find id (ints s)) eqn:Ef; [discriminate|].
+    destruct (find_pid pid (ints s)) eqn:Ep; [discriminate|]. destruct (spawning s) eqn:Es; [discriminate|].
+    destruct (mem pid (reaped s)) eqn:Em; [discriminate|]. inversion H; subst; clear H.
+    destruct HI as [H1 H2 H3 H4 H5 H6]. constructor; simpl; auto.
+    intros t0 i p E. inversion E; subst. apply holds_lock in Eh. auto.
+  - (* WInsert *)
+    destruct (holds s t); [|discriminate]. destruct (spawning s) as [[[t' id'] pid]|] eqn:Es; [|discriminate].
+    destruct ((t' =? t) && (id' =? id)) eqn:E; [|discriminate]. apply andb_true_iff in E. destruct E as [E1 E2]. zb. subst.
+    inversion H; subst; clear H. destruct (i_spawn s HI _ _ _ Es) as [A [B [C D]]].
+    apply inv_add; auto. intros; discriminate.
+  - (* WReap *)
+    destruct (holds s t); [|discriminate]. destruct (spawning s) eqn:Es; [discriminate|].
+    destruct (mem pid (reaped s)); [discriminate|]. unfold reap_one in H.
+    destruct (find_pid pid (ints s)) as [p|] eqn:Ep.
+    + inversion H; subst; clear H. apply inv_reap_found; auto.
+    + destruct (is_dead st); inversion H; subst; clear H; [|exact HI]. apply inv_reap_stranger; auto.
+  - (* WSteal *)
+    destruct (holds s t); [|discriminate]. destruct (find id (ints s)) as [w|] eqn:Ef; [|discriminate].
+    destruct ((w_thr w =? t) && thread_frames_done t (ints s)) eqn:E; [|discriminate].
+    apply andb_true_iff in E. destruct E as [E1 E2]. zb. inversion H; subst; clear H.
+    apply inv_upd; [exact HI|auto|intro x; split; reflexivity|].
+    intros x Hx Hid. destruct (find_in _ _ _ Ef) as [Hw _].
+      assert (x = w).
+      { pose proof (find_unique _ _ _ (i_nodup s HI) Hx Hid) as F. rewrite Ef in F. inversion F. reflexivity. }
+    subst x. rewrite (i_route s HI w Hw). rewrite (frame_done_list w (frames_done_spec _ _ _ E2 Hw eq_refl)).
+    unfold frame_list. simpl. rewrite app_nil_r. reflexivity.
+  - (* WDeliver *)
+    destruct (find id (ints s)) as [w|] eqn:Ef; [|discriminate]. destruct (w_frame w) as [[|x rest]|] eqn:Efr; try discriminate.
+    destruct ((w_thr w =? t) && (x =? st)) eqn:E; [|discriminate]. apply andb_true_iff in E. destruct E as [E1 E2]. zb. subst.
+    inversion H; subst; clear H. apply inv_upd; [exact HI|auto|intro y; split; reflexivity|].
+    intros y Hy Hid. destruct (find_in _ _ _ Ef) as [Hw _].
+      assert (y = w).
+      { pose proof (find_unique _ _ _ (i_nodup s HI) Hy Hid) as F. rewrite Ef in F. inversion F. reflexivity. }
+    subst y. rewrite (i_route s HI w Hw). unfold frame_list. rewrite Efr. simpl. rewrite <- !app_assoc. reflexivity.
+  - (* WUnreg *)
+    destruct (holds s t); [|discriminate]. destruct (find id (ints s)) as [w|] eqn:Ef; [|discriminate].
+    destruct (w_thr w =? t); [|discriminate]. inversion H; subst; clear H.
+    destruct HI as [H1 H2 H3 H4 H5 H6]. constructor; simpl.
+    + apply nodup_remove; exact H1.
+    + intros a b Ha Hb. apply in_remove in Ha. apply in_remove in Hb. apply H2; [apply Ha|apply Hb].
+    + intros x Hx. apply in_remove in Hx. apply H3, Hx.
+    + intros x Hx. apply in_remove in Hx. apply H4, Hx.
+    + intros x Hx. apply in_remove in Hx. apply H5, Hx.
+    + intros t0 i p E. destruct (H6 t0 i p E) as [A [B [C D]]]. repeat split; auto.
+      * rewrite find_remove. rewrite B. destruct (i =? id); reflexivity.
+      * apply (find_pid_sub p (ints s)); [|exact C]. intros x Hx. apply in_remove in Hx. apply Hx.
+  - (* WKill *)
+    dmatch H. inversion H; subst. exact HI.
+  - (* WBlock *)
+    dmatch H. inversion H; subst. exact HI.
+Qed.
+
+Theorem run_inv : forall ls s s', Inv s -> run s ls = Some s' -> Inv s'.
+Proof.
+  induction ls as [|l r IH]; simpl; intros s s' HI H.
+  - inversion H; subst. exact HI.
+  - destruct (step s l) eqn:E; [|discriminate]. eapply IH; [eapply step_inv; eauto|exact H].
+Qed.
+
+Definition reachable (s : state) : Prop := exists ls, run init ls = Some s.
+
+Theorem reachable_inv : forall s, reachable s -> Inv s.
+Proof. intros s [ls H]. eapply run_inv; [apply init_inv|exact H]. Qed.
+
+(* ---------- C11_routing ---------- *)
+Lemma routing_hist : forall s w, reachable s -> In w (ints s) ->
+  w_hist w = w_deliv w ++ frame_list w ++ w_queue w.
+Proof. intros s w R Hw. apply (i_route s (reachable_inv s R)). exact Hw. Qed.
+
+(* a reaped status goes to the live interest registered for the pid -- appended to its queue and history -- and
+   to nobody else; without such an interest nothing changes *)
+Lemma routing_reap : forall s t pid st s', reachable s -> step s (WReap t pid st) = Some s' ->
+  match find_pid pid (ints s) with
+  | Some p => ints s' = upd_rec (w_id p) (set_reap st) (ints s) /\ w_pid p = pid /\ w_dead p = false
+  | None => ints s' = ints s
+  end.
+Proof.
+  intros s t pid st s' R H. unfold step in H. simpl in H. destruct (holds s t); [|discriminate].
+  destruct (spawning s); [discriminate|]. destruct (mem pid (reaped s)); [discriminate|]. unfold reap_one in H.
+  destruct (find_pid pid (ints s)) as [p|] eqn:Ep.
+  - inversion H; subst. simpl. destruct (find_pid_some _ _ _ Ep) as [_ [A B]]. auto.
+  - destruct (is_dead st); inversion H; subst; reflexivity.
+Qed.
+
+(* the handler is called in the registering thread with the oldest undelivered stolen status *)
+Lemma routing_deliver : forall s t id st s', step s (WDeliver t id st) = Some s' ->
+  exists w rest, find id (ints s) = Some w /\ w_thr w = t /\ w_frame w = Some (st :: rest) /\
+                 ints s' = upd_rec id (set_deliver st rest) (ints s).
+Proof.
+  intros s t id st s' H. unfold step in H. simpl in H.
+  destruct (find id (ints s)) as [w|]; [|discriminate]. destruct (w_frame w) as [[|x rest]|]; try discriminate.
+  destruct ((w_thr w =? t) && (x =? st)) eqn:E; [|discriminate]. apply andb_true_iff in E. destruct E as [E1 E2]. zb. subst.
+  inversion H; subst. exists w, rest. auto.
+Qed.
+
+(* when every thread has come to rest nothing reaped is undelivered *)
+Lemma routing_complete : forall s t s' w, reachable s -> step s (WBlock t) = Some s' -> In w (ints s) -> w_thr w = t ->
+  w_deliv w = w_hist w.
+Proof.
+  intros s t s' w R H Hw Ht. unfold step in H. simpl in H. destruct (quiet_thread t (ints s)) eqn:Eq; [|discriminate].
+  unfold quiet_thread in Eq. rewrite forallb_forall in Eq. specialize (Eq w Hw). rewrite Ht, Z.eqb_refl in Eq. simpl in Eq.
+  apply andb_true_iff in Eq. destruct Eq as [E1 E2]. rewrite (routing_hist s w R Hw), (frame_done_list w E1).
+  destruct (w_queue w); [|discriminate]. rewrite !app_nil_r. reflexivity.
+Qed.
+
+(* ---------- C11_terminal_once ---------- *)
+Lemma terminal_once : forall s w, reachable s -> In w (ints s) ->
+  ok_hist (w_dead w) (w_hist w) /\ (w_dead w = true -> find_pid (w_pid w) (ints s) <> Some w) /\
+  (w_dead w = true -> forall t st, step s (WReap t (w_pid w) st) = None).
+Proof.
+  intros s w R Hw. pose proof (reachable_inv s R) as HI. split; [apply (i_hist s HI); exact Hw|]. split.
+  - intros Hd Hf. destruct (find_pid_some _ _ _ Hf) as [_ [_ C]]. congruence.
+  - intros Hd t st. unfold step. simpl. destruct (holds s t); [|reflexivity]. destruct (spawning s); [reflexivity|].
+    rewrite <- (i_dead s HI w Hw), Hd. reflexivity.
+Qed.
+
+(* ---------- C11_spawn_never_missed ---------- *)
+Lemma spawn_window : forall s t id pid, reachable s -> spawning s = Some (t, id, pid) ->
+  wlock s = Some t /\
+  (forall u p st, step s (WReap u p st) = None) /\
+  (forall l s', step s l = Some s' -> spawning s' = Some (t, id, pid) \/ (l = WInsert t id /\ find_pid pid (ints s') = Some (new_rec t id pid))).
+Proof.
+  intros s t id pid R Hs. pose proof (reachable_inv s R) as HI. destruct (i_spawn s HI _ _ _ Hs) as [A [B [C D]]].
+  split; [exact A|]. split.
+  - intros u p st. unfold step. simpl. destruct (holds s u); [|reflexivity]. rewrite Hs. reflexivity.
+  - intros l s' H. unfold step in H. destruct l; simpl in H; rewrite ?Hs in H.
+    + rewrite A in H. discriminate.
+    + destruct (holds s t0); discriminate.
+    + dmatch H.
+    + dmatch H.
+    + destruct (holds s t0); [|discriminate]. destruct ((t =? t0) && (id =? id0)) eqn:E; [|discriminate].
+      apply andb_true_iff in E. destruct E as [E1 E2]. zb. subst. inversion H; subst; clear H. right. split; [reflexivity|].
+      simpl. unfold find_pid. simpl. rewrite Z.eqb_refl. reflexivity.
+    + destruct (holds s t0); discriminate.
+    + dmatch H; inversion H; subst; left; exact Hs.
+    + dmatch H; inversion H; subst; left; exact Hs.
+    + dmatch H; inversion H; subst; left; exact Hs.
+    + dmatch H; inversion H; subst; left; exact Hs.
+    + dmatch H; inversion H; subst; left; exact Hs.
+Qed.
+
+(* ---------- C11_strangers_harmless ---------- *)
+Lemma strangers_harmless : forall s pid st, find_pid pid (ints s) = None ->
+  exists s', reap_one true s pid st = Ok s' /\ ints s' = ints s /\ wlock s' = wlock s /\ spawning s' = spawning s.
+Proof.
+  intros s pid st H. unfold reap_one. rewrite H. destruct (is_dead st); eexists; repeat split.
+Qed.
+
+Lemma fixed_never_crashes : forall s pid st, reap_one true s pid st <> Crash.
+Proof. intros s pid st. unfold reap_one. destruct (find_pid pid (ints s)); [discriminate|]. destruct (is_dead st); discriminate. Qed.
+
+(* ---------- C11_kill_safe ---------- *)
+Lemma kill_safe : forall s t id sig performed s', reachable s -> step s (WKill t id sig performed) = Some s' ->
+  exists w, find id (ints s) = Some w /\ wlock s = Some t /\
+    (performed = true -> w_dead w = false /\ mem (w_pid w) (reaped s) = false) /\
+    (performed = false -> w_dead w = true /\ mem (w_pid w) (reaped s) = true).
+Proof.
+  intros s t id sig performed s' R H. pose proof (reachable_inv s R) as HI. unfold step in H. simpl in H.
+  destruct (holds s t) eqn:Eh; [|discriminate]. destruct (find id (ints s)) as [w|] eqn:Ef; [|discriminate].
+  destruct (Bool.eqb performed (negb (w_dead w))) eqn:E; [|discriminate]. apply eqb_prop in E.
+  destruct (find_in _ _ _ Ef) as [Hw _]. pose proof (i_dead s HI w Hw) as Hd.
+  exists w. split; [reflexivity|]. split; [apply holds_lock; exact Eh|]. split; intro Hp; subst performed.
+  - destruct (w_dead w); [discriminate|]. split; [reflexivity|]. symmetry. exact Hd.
+  - destruct (w_dead w); [|discriminate]. split; [reflexivity|]. symmetry. exact Hd.
+Qed.
+
+(* ---------- the monitor accepts every accepted sequence ---------- *)
+Definition proj (s : state) : mstate := {| m_ints := ints s; m_reaped := reaped s; m_fork := spawning s |}.
+
+Lemma proj_step : forall s l s', Inv s -> step s l = Some s' -> mstep (proj s) l = Some (proj s').
+Proof.
+  intros s l s' HI H. unfold step in H. destruct l; simpl in H |- *.
+  - dmatch H. inversion H; subst. reflexivity.
+  - dmatch H. inversion H; subst. reflexivity.
+  - dmatch H. inversion H; subst. reflexivity.
+  - dmatch H. inversion H; subst. reflexivity.
+  - destruct (holds s t); [|discriminate]. destruct (spawning s) as [[[a b] c]|]; [|discriminate].
+    destruct ((a =? t) && (b =? id)); [|discriminate]. inversion H; subst. reflexivity.
+  - destruct (holds s t); [|discriminate]. destruct (spawning s); [discriminate|].
+    destruct (mem pid (reaped s)); [discriminate|]. unfold reap_one in H.
+    destruct (find_pid pid (ints s)); [inversion H; subst; reflexivity|].
+    destruct (is_dead st); inversion H; subst; reflexivity.
+  - destruct (holds s t); [|discriminate]. destruct (find id (ints s)) as [w|]; [|discriminate].
+    destruct ((w_thr w =? t) && thread_frames_done t (ints s)); [|discriminate]. inversion H; subst. reflexivity.
+  - destruct (find id (ints s)) as [w|]; [|discriminate]. destruct (w_frame w) as [[|x rest]|]; try discriminate.
+    destruct ((w_thr w =? t) && (x =? st)); [|discriminate]. inversion H; subst. reflexivity.
+  - destruct (holds s t); [|discriminate]. destruct (find id (ints s)) as [w|]; [|discriminate].
+    destruct (w_thr w =? t); [|discriminate]. inversion H; subst. reflexivity.
+  - destruct (holds s t); [|discriminate]. destruct (find id (ints s)) as [w|] eqn:Ef; [|discriminate].
+    destruct (Bool.eqb performed (negb (w_dead w))) eqn:E; [|discriminate]. inversion H; subst.
+    destruct (find_in _ _ _ Ef) as [Hw _]. rewrite <- (i_dead s' HI w Hw), E. reflexivity.
+  - destruct (quiet_thread t (ints s)); [|discriminate]. inversion H; subst. reflexivity.
+Qed.
+
+Theorem monitor_accepts : forall ls, accepts ls = true -> monitor ls = true.
+Proof.
+  intros ls H. unfold accepts in H. unfold monitor.
+  assert (G : forall xs s s', Inv s -> run s xs = Some s' -> mrun (proj s) xs = Some (proj s')).
+  { induction xs as [|x r IH]; simpl; intros s s' HI Hr.
+    - inversion Hr; subst. reflexivity.
+    - destruct (step s x) as [s1|] eqn:E; [|discriminate]. rewrite (proj_step s x s1 HI E).
+      apply IH; [eapply step_inv; eauto|exact Hr]. }
+  destruct (run init ls) as [s|] eqn:E; [|discriminate].
+  change minit with (proj init). rewrite (G ls init s init_inv E). reflexivity.
+Qed.
